@@ -190,7 +190,9 @@ theorem foldl_insert_toOpt (ds : List Model.WValue) (hpos : ∀ d ∈ ds, 1 ≤ 
     unfold Model.insert toOpt Scan.step
     cases hs : s.weight.isNone
     · simp only [Bool.false_or, Bool.false_eq_true, if_false, wle]
-      cases hl : s.weight.less d.weight <;> simp [hs, hd]
+      by_cases hl : s.weight.less d.weight = true
+      · simp [hl, hd]
+      · simp [hl, hs]
     · simp [hd]
 
 theorem cascade_eq_scan (ds : List Model.WValue) (hpos : ∀ d ∈ ds, 1 ≤ d.weight.precedence) :
